@@ -139,7 +139,20 @@ def _crash_check(pid, tier, own, use_atomic=False, rule_extra=""):
             mask = r0.get("mask") or 0
             div["recovered_indexes"] = recovered
             if mask:
-                div["recovered_only_completed_writes"] = all((mask >> j) & 1 for j in recovered)
+                # entries with equal payloads are indistinguishable: compare as multisets
+                okm = True
+                for v in set(es):
+                    n_got = sum(1 for x in got if x == v)
+                    n_written = sum(1 for j, x in enumerate(es) if x == v and (mask >> j) & 1)
+                    n_before = 0   # the same payload may also have been acknowledged earlier
+                    for e in groups[g][:groups[g].index(crash_ev)] if crash_ev in groups[g] else []:
+                        if e.get("ev") == "append" and e.get("res") == "ok" and (e.get("k"), e.get("size")) == v:
+                            n_before += 1
+                        if e.get("ev") == "batch" and e.get("res") == "ok":
+                            n_before += sum(1 for y in e.get("es", []) if tuple(y) == v)
+                    if n_got > n_written + n_before:
+                        okm = False
+                div["recovered_only_completed_writes"] = okm
             else:
                 div["recovered_only_completed_writes"] = None
         if not own(div):
